@@ -76,11 +76,12 @@ type vCliTrace struct {
 }
 
 var (
-	vCliPatience  = 2 * time.Second
-	vCliPauseMin  = 4 * time.Millisecond
-	vCliBusySeen  int32
-	vCliFields    = []string{"ampcache", "front", "ice", "max", "url", "utls-nosni", "utls-imitate", "fingerprint"}
-	vCliUTLSNames = []string{"hellochrome_auto", "hellofirefox_auto", "helloios_auto", "hellochrome_72", "hellofirefox_65"}
+	vCliPatience      = 2 * time.Second
+	vCliPauseMin      = 4 * time.Millisecond
+	vCliBusySeen      int32
+	vCliUnsettledSeen int32
+	vCliFields        = []string{"ampcache", "front", "ice", "max", "url", "utls-nosni", "utls-imitate", "fingerprint"}
+	vCliUTLSNames     = []string{"hellochrome_auto", "hellofirefox_auto", "helloios_auto", "hellochrome_72", "hellofirefox_65"}
 )
 
 // ---------------------------------------------------------------------------
@@ -155,8 +156,8 @@ func vCliSources(c sf.ClientConfig, nconns int) map[string]interface{} {
 		for j := 1; j <= nconns; j++ {
 			for _, cls := range []string{"ok", "bad"} {
 				w := vCliArgValue(f, cls, j)
-				if f == "ice" {
-					w = strings.TrimSpace(w)
+				if f == "ice" { // the list, element by element
+					w = strings.Join(strings.Split(strings.TrimSpace(w), ","), "|")
 				}
 				if v == w {
 					return j
@@ -169,7 +170,7 @@ func vCliSources(c sf.ClientConfig, nconns int) map[string]interface{} {
 	out["url"] = src("url", c.BrokerURL, vCliFlagURL)
 	out["ampcache"] = src("ampcache", c.AmpCacheURL, vCliFlagAmp)
 	out["front"] = src("front", c.FrontDomain, vCliFlagFront)
-	out["ice"] = src("ice", strings.Join(c.ICEAddresses, ","), vCliFlagICE)
+	out["ice"] = src("ice", strings.Join(c.ICEAddresses, "|"), strings.Join(strings.Split(vCliFlagICE, ","), "|"))
 	out["max"] = src("max", strconv.Itoa(c.Max), strconv.Itoa(vCliFlagMax))
 	out["fingerprint"] = src("fingerprint", c.BridgeFingerprint, "")
 	out["utls-imitate"] = src("utls-imitate", c.UTLSClientID, "")
@@ -606,8 +607,8 @@ func (r *vCliRig) picture() vCliPic {
 		switch {
 		case !alive:
 			h = "done"
-		case g.state == "select" && strings.Contains(g.body, vCliPkg+"socksAcceptLoop.func1("):
-			h = "select"
+		case (g.state == "select" || g.state == "chan receive") && strings.Contains(g.body, vCliPkg+"socksAcceptLoop.func1("):
+			h = "select" // (a select with one case is compiled to a plain channel operation)
 		default:
 			h, p.ready = "", false
 		}
@@ -738,6 +739,7 @@ func (r *vCliRig) settled(p vCliPic) bool {
 
 func (r *vCliRig) quiesce() (vCliPic, error) {
 	deadline := time.Now().Add(30 * time.Second)
+	began := time.Now()
 	var patience time.Time
 	prev, same := "", 0
 	for {
@@ -746,6 +748,11 @@ func (r *vCliRig) quiesce() (vCliPic, error) {
 		if ok && (p.busy || !r.settled(p)) {
 			if patience.IsZero() {
 				patience = time.Now().Add(vCliPatience)
+				if !p.busy && atomic.LoadInt32(&vCliUnsettledSeen) >= 5 {
+					// sockets that did not settle within the full patience five times already in this
+					// process: believe it sooner from now on (a confirmation run starts afresh)
+					patience = time.Now().Add(vCliPatience / 20)
+				}
 				if p.busy && atomic.LoadInt32(&vCliBusySeen) >= 3 {
 					patience = time.Now().Add(vCliPatience / 20)
 				}
@@ -764,6 +771,8 @@ func (r *vCliRig) quiesce() (vCliPic, error) {
 			if same >= 1 {
 				if p.busy {
 					atomic.AddInt32(&vCliBusySeen, 1)
+				} else if !patience.IsZero() && !time.Now().Before(patience) {
+					atomic.AddInt32(&vCliUnsettledSeen, 1)
 				}
 				return p, nil
 			}
@@ -773,7 +782,7 @@ func (r *vCliRig) quiesce() (vCliPic, error) {
 		if time.Now().After(deadline) {
 			return p, fmt.Errorf("no quiescence within 30s (last picture %q)", p.text)
 		}
-		if patience.IsZero() {
+		if patience.IsZero() && time.Since(began) < 200*time.Millisecond {
 			runtime.Gosched()
 		} else {
 			time.Sleep(200 * time.Microsecond)
@@ -1082,6 +1091,7 @@ func (r *vCliCopyRig) picture() (d, u, v string, ready bool) {
 
 func (r *vCliCopyRig) quiesce() (map[string]interface{}, error) {
 	deadline := time.Now().Add(20 * time.Second)
+	began := time.Now()
 	var patience time.Time
 	prev, same := "", 0
 	for {
@@ -1123,7 +1133,7 @@ func (r *vCliCopyRig) quiesce() (map[string]interface{}, error) {
 		if time.Now().After(deadline) {
 			return nil, fmt.Errorf("no quiescence within 20s (last picture %q)", text)
 		}
-		if patience.IsZero() {
+		if patience.IsZero() && time.Since(began) < 200*time.Millisecond {
 			runtime.Gosched()
 		} else {
 			time.Sleep(200 * time.Microsecond)
@@ -1495,8 +1505,20 @@ func TestVerifClientMain(t *testing.T) {
 	}
 	w := bufio.NewWriter(of)
 	// one schedule at a time: the hook, the logger and the goroutine census are process-wide
+	// a process that has become hopelessly slow (code under test that leaves thousands of goroutines behind)
+	// stops executing; what it has not run is reported as such, what it has run is still judged
+	budget := 240 * time.Second
+	if v, err := strconv.Atoi(os.Getenv("VERIF_CLI_BUDGET_S")); err == nil && v > 0 {
+		budget = time.Duration(v) * time.Second
+	}
+	t0 := time.Now()
 	for _, s := range scheds {
-		tr := vCliRunSchedule(s)
+		var tr vCliTrace
+		if time.Since(t0) > budget {
+			tr = vCliTrace{ID: s.ID, Mode: s.Mode, Events: []map[string]interface{}{}, Note: fmt.Sprintf("not run: the harness process used up its %v (goroutines: %d)", budget, runtime.NumGoroutine())}
+		} else {
+			tr = vCliRunSchedule(s)
+		}
 		b, _ := json.Marshal(tr)
 		w.Write(b)
 		w.WriteByte('\n')
